@@ -151,7 +151,7 @@ func init() {
 		"over": wxJunk("num", "1e400"), "junk": wxJunk("num", "abc"), "empty": wxJunk("num", ""),
 	}
 	wireAtoms["string"] = map[string]*wAtom{
-		"zero": wxSa(""), "ascii": wxSa("hello"), "esc": wxSa("q\"uo\\te/"), "ctrl": wxSa("\x01\n\t\r\b\f\x7f"), "nonbmp": wxSa("\U0001F600é "), "html": wxSa("<a&b>'"),
+		"zero": wxSa(""), "ascii": wxSa("hello"), "esc": wxSa("q\"uo\\te/"), "ctrl": wxSa("\x01\n\t\r\b\f\x7f\v\x00\x1f\x1b\x0e"), "nonbmp": wxSa("\U0001F600é "), "html": wxSa("<a&b>'"),
 	}
 	wireAtoms["key"] = map[string]*wAtom{
 		"zero": wxSa(""), "id62": wxSa("0123456789abcdefghijAB"), "uuid": wxSa("123e4567-e89b-12d3-a456-426614174000"),
